@@ -246,3 +246,20 @@ PLANS['C17'] = dict(run=_c17_run, search=_c17_search, replay=s_c17.replay, repla
                          "PYTHONHASHSEED 0/1/12345); all output trees byte-compared; non-trivial = at least 2 files written or a lone file",
                     assumptions=TREE_ASSUME + ["hash seed and re-execution have no counterpart in a functional model: that half is carried by the "
                                                "correspondence runs, the theorems cover history independence of the model"])
+
+
+# ---- C19 --------------------------------------------------------------------------------------------------------------
+import s_cmake
+
+
+def _c19_run(tier, seed, out, drv):
+    s_cmake.cmake_suite(seed, 14 if tier == 'quick' else 250, out, drv, budget_s=150 if tier == 'quick' else 1500)
+
+
+PLANS['C19'] = dict(run=_c19_run, replay=s_cmake.replay, replay_kind='cmake',
+                    rule="real `cmake -P` runs of cminx_gen_rst with CMINX_EXECUTABLE bound to (a) an argv recorder — compared with the Lean genArgv, "
+                         "(b) the working-tree CMinx — output tree byte-compared with a direct command-line run, (c) a failing child; inputs: lone "
+                         "files, flat and nested directories, missing paths, syntax-error files; extra lists of 0-3 option groups (-p, -e, -s, "
+                         "--prefix); non-trivial = every run",
+                    assumptions=["CMake's evaluation of the function body, list expansion and execute_process(COMMAND_ERROR_IS_FATAL ANY) are trusted; "
+                                 "only list flattening is modelled", "argparse's abbreviation matching is not modelled"])
